@@ -80,6 +80,7 @@ def ownedOf (h : Heap) : Handle → List Json
       [cellSize h n, (match a with | some (i, _) => cellSize h i | none => Json.null),
         (match b with | some (i, _) => cellSize h i | none => Json.null)]
   | .tproxies o i => [cellSize h o, cellSize h i]
+  | .alias => []
 
 def faultName : Fault → String
   | .doubleFree id => s!"double free of allocation {id}"
@@ -95,6 +96,7 @@ def releaseCall (i : Nat) : Handle → Option Call
   | .obj k _ => some (.objDrop k i)
   | .hlist _ => some (.hlistFree i)
   | .tproxies _ _ => none
+  | .alias => none
 
 def handle (j : Json) : Except String Json := do
   if (j.getObjVal? "selftest").isOk then
@@ -126,7 +128,7 @@ def handle (j : Json) : Except String Json := do
         let base : List (String × Json) := [("slot", toJson before), ("owned", Json.arr (ownedOf st.heap sl.h).toArray)]
         let extra : List (String × Json) := match sl.h with
           | .buffer b => [("bytes", toJson (Drv.hex b.bytes))]
-          | .hlist [] => if op == "headers" && (cj.getObjVal? "hdrs" matches .ok .null) then [("alias", Json.bool true)] else []
+          | .alias => [("alias", Json.bool true)]
           | _ => []
         res := Json.mkObj (base ++ extra)
         -- the NULL / non-NULL answer the library gave must be the one the model derives from the handles
